@@ -55,7 +55,7 @@ pub fn check() -> PropertyCheck {
         ],
         subs: vec![Box::new(Pbt {
             name: "timing",
-            quick: 60_000,
+            quick: 150_000,
             thorough: 3_000_000,
             strat,
             test,
